@@ -313,6 +313,8 @@ int sim_open(const char* path, int flags, ...) {
   if (g_sync.yield) g_sync.yield(YK_FILE, __builtin_return_address(0));
   int n = __atomic_add_fetch(&g_fs.opens, 1, __ATOMIC_SEQ_CST);
   if (n == g_fs.fail_open_at) { g_fs.faults_fired++; errno = EMFILE; return -1; }
+  // the simulated caller owns none of the files it scans and has no CAP_FOWNER: O_NOATIME is refused (open(2): EPERM)
+  if ((flags & O_NOATIME) && !(flags & O_CREAT)) { g_fs.noatime_refused++; errno = EPERM; return -1; }
   int fd = open(path, flags, mode);
   if (fd >= 0) { pthread_mutex_lock(&g_fs_mu); if (!g_fds) g_fds = new std::set<int>(); g_fds->insert(fd); g_fs.open_fds = g_fds->size(); pthread_mutex_unlock(&g_fs_mu); }
   return fd;
